@@ -102,6 +102,11 @@ pub enum GOp {
     CondEnforceEqual { a: u8, b: u8, cond: bool },
     CondEnforceNotEqual { a: u8, b: u8, cond: bool },
     CondSelect { dst: u8, cond: bool, a: u8, b: u8 },
+    /// the same gadgets with a *constant* condition (`Boolean::constant`): part of the circuit's
+    /// definition, so never varied between the runs of a shape comparison
+    CondSelectConst { dst: u8, cond: bool, a: u8, b: u8 },
+    CondEnforceEqualConst { a: u8, b: u8, cond: bool },
+    CondEnforceNotEqualConst { a: u8, b: u8, cond: bool },
     Isqrt { dst: u8, f: u8 },
     IsNegative { f: u8 },
     IsNonnegative { f: u8 },
@@ -611,25 +616,35 @@ impl Machine {
                     native_fails = Some(format!("{name} on natively {} elements", if na == nb { "equal" } else { "different" }));
                 }
             }
-            GOp::CondEnforceEqual { a, b, cond } | GOp::CondEnforceNotEqual { a, b, cond } => {
+            GOp::CondEnforceEqual { a, b, cond } | GOp::CondEnforceNotEqual { a, b, cond } | GOp::CondEnforceEqualConst { a, b, cond } | GOp::CondEnforceNotEqualConst { a, b, cond } => {
                 let (va, na, ca) = ereg!(*a);
                 let (vb, nb, cb) = ereg!(*b);
                 if ca && cb {
                     return Ok(StepOut::Skipped);
                 }
-                let eq = matches!(op, GOp::CondEnforceEqual { .. });
-                let c = Boolean::new_witness(cs.clone(), || Ok(*cond)).map_err(|e| synth(e, &name))?;
-                self.inputs.push(InKind::Bool(c.clone(), *cond));
+                let eq = matches!(op, GOp::CondEnforceEqual { .. } | GOp::CondEnforceEqualConst { .. });
+                let c = if matches!(op, GOp::CondEnforceEqualConst { .. } | GOp::CondEnforceNotEqualConst { .. }) {
+                    Boolean::constant(*cond)
+                } else {
+                    let c = Boolean::new_witness(cs.clone(), || Ok(*cond)).map_err(|e| synth(e, &name))?;
+                    self.inputs.push(InKind::Bool(c.clone(), *cond));
+                    c
+                };
                 if eq { va.conditional_enforce_equal(&vb, &c) } else { va.conditional_enforce_not_equal(&vb, &c) }.map_err(|e| synth(e, &name))?;
                 if *cond && (na == nb) != eq {
                     native_fails = Some(format!("{name} (condition true) on natively {} elements", if na == nb { "equal" } else { "different" }));
                 }
             }
-            GOp::CondSelect { dst, cond, a, b } => {
+            GOp::CondSelect { dst, cond, a, b } | GOp::CondSelectConst { dst, cond, a, b } => {
                 let (va, na, ca) = ereg!(*a);
                 let (vb, nb, cb) = ereg!(*b);
-                let c = Boolean::new_witness(cs.clone(), || Ok(*cond)).map_err(|e| synth(e, &name))?;
-                self.inputs.push(InKind::Bool(c.clone(), *cond));
+                let c = if matches!(op, GOp::CondSelectConst { .. }) {
+                    Boolean::constant(*cond)
+                } else {
+                    let c = Boolean::new_witness(cs.clone(), || Ok(*cond)).map_err(|e| synth(e, &name))?;
+                    self.inputs.push(InKind::Bool(c.clone(), *cond));
+                    c
+                };
                 let out = ElementVar::conditionally_select(&c, &va, &vb).map_err(|e| synth(e, &name))?;
                 let nat = if *cond { na } else { nb };
                 self.check_elem(&name, &out, &nat, ctx)?;
@@ -718,7 +733,7 @@ impl Machine {
         self.steps_done += 1;
         if poison_used {
             // whatever the gadget produced is derived from an undecodable encoding
-            if let GOp::Bin { dst, .. } | GOp::BinConst { dst, .. } | GOp::Negate { dst, .. } | GOp::Double { dst, .. } | GOp::DoubleInPlace { dst, .. } | GOp::ScalarMul { dst, .. } | GOp::CondSelect { dst, .. } = op {
+            if let GOp::Bin { dst, .. } | GOp::BinConst { dst, .. } | GOp::Negate { dst, .. } | GOp::Double { dst, .. } | GOp::DoubleInPlace { dst, .. } | GOp::ScalarMul { dst, .. } | GOp::CondSelect { dst, .. } | GOp::CondSelectConst { dst, .. } = op {
                 if let Some(r) = self.ev[*dst as usize % NE].as_mut() {
                     r.poisoned = true;
                 }
@@ -904,6 +919,11 @@ pub fn gop() -> BoxedStrategy<GOp> {
         1 => (e(), e(), any::<bool>()).prop_map(|(a, b, cond)| GOp::CondEnforceEqual { a, b, cond }),
         1 => (e(), e(), any::<bool>()).prop_map(|(a, b, cond)| GOp::CondEnforceNotEqual { a, b, cond }),
         1 => (e(), any::<bool>(), e(), e()).prop_map(|(dst, cond, a, b)| GOp::CondSelect { dst, cond, a, b }),
+        1 => (e(), any::<bool>(), e(), e(), 0u8..3).prop_map(|(dst, cond, a, b, w)| match w {
+            0 => GOp::CondSelectConst { dst, cond, a, b },
+            1 => GOp::CondEnforceEqualConst { a, b, cond },
+            _ => GOp::CondEnforceNotEqualConst { a, b, cond },
+        }),
         2 => (f(), f()).prop_map(|(dst, f)| GOp::Isqrt { dst, f }),
         1 => f().prop_map(|f| GOp::IsNegative { f }),
         1 => f().prop_map(|f| GOp::IsNonnegative { f }),
